@@ -72,6 +72,7 @@ type RunConfig struct {
 	Workers   int
 	Trace     bool
 	Known     []KnownFinding
+	Fixed     map[string]uint64 // engine-side concrete replay: nondet values fixed to these
 }
 
 type KnownFinding struct {
@@ -106,6 +107,7 @@ func RunHarness(l *Loaded, h *HarnessFn, cfg RunConfig) (res *HarnessResult) {
 	e := NewEngine(l.Prog, Options{Trace: cfg.Trace})
 	e.harness = h.Name
 	e.tier = tierNum(cfg.Tier)
+	e.fixed = cfg.Fixed
 	defer func() {
 		if e.feas != nil {
 			res.SolverTime[e.feas.Kind] += e.feas.Time.Seconds()
@@ -134,6 +136,9 @@ func RunHarness(l *Loaded, h *HarnessFn, cfg RunConfig) (res *HarnessResult) {
 		}
 	}()
 	res.ExecWall = time.Since(t0).Seconds()
+	if os.Getenv("VERIF_PROGRESS") != "" {
+		fmt.Fprintf(os.Stderr, "%s: exec done %.1fs terms=%d obls=%d covers=%d status=%s %s\n", h.Name, res.ExecWall, e.tb.NumTerms(), len(e.obls), len(e.covers), res.Status, res.Reason)
+	}
 	res.Blocks, res.Instrs, res.Terms = e.nBlocks, e.nInstrs, e.tb.NumTerms()
 	res.Funcs, res.Stubs, res.Notes = e.funcs, e.stubs, e.notes
 	res.Nondets = len(e.nondets)
